@@ -1,7 +1,5 @@
 //! Two-way string matching on steroids.
 
-use std::cmp::max;
-
 use memchr_rs::memchr;
 
 const SIMD_THRESHOLD: usize = 16;
@@ -67,14 +65,15 @@ pub fn find(haystack: &str, needle: &str) -> Option<usize> {
         return None;
     }
 
-    let (crit, period) = crit_period(n);
+    let (crit, _) = crit_period(n);
     let anchor = n[crit];
     #[cfg(naijascript_verif)]
     crate::verif::emit(VERIF_TW, || format!("{{\"ev\":\"factor\",\"crit\":{crit}}}"));
 
     let mut offset = 0;
 
-    while offset + nlen <= hlen {
+    // `offset` is where the next anchor search starts, not a candidate match start.
+    while offset < hlen {
         let index = memchr(anchor, h, offset);
         if index >= hlen {
             #[cfg(naijascript_verif)]
@@ -98,8 +97,9 @@ pub fn find(haystack: &str, needle: &str) -> Option<usize> {
         #[cfg(naijascript_verif)]
         let verif_offset = offset;
 
-        let shift = max(1, period);
-        offset = start.saturating_add(shift);
+        // A failed whole-needle comparison does not say where the mismatch was, so the only
+        // shift that cannot skip a match is to the next anchor candidate.
+        offset = index + 1;
         #[cfg(naijascript_verif)]
         verif_iter(verif_offset, Some(index), Some(start), "miss", Some(offset));
     }
@@ -139,7 +139,7 @@ fn maximal_suffix(x: &[u8], rev: bool) -> (usize, usize) {
     let n = x.len();
     let (mut i, mut j, mut k, mut p) = (0, 1, 1, 1);
 
-    while j + k <= n {
+    while j + k < n {
         let ap = x[i + k];
         let a = x[j + k];
         if (a < ap && !rev) || (a > ap && rev) {
@@ -205,6 +205,19 @@ mod tests {
         let hay = "The quick brown fox jumps over the lazy dog";
         assert_eq!(find(hay, "brown fox jumps"), Some(10));
         assert_eq!(find(hay, "not present"), None);
+    }
+
+    #[test]
+    fn t_needle_above_simd_threshold() {
+        let hay = "The quick brown fox jumps over the lazy dog";
+        assert_eq!(find(hay, "quick brown fox jumps"), Some(4));
+        assert_eq!(find(hay, "quick brown fox jumped"), None);
+        assert_eq!(find(hay, hay), Some(0));
+        // periodic needle: the anchor byte occurs before, inside and after the match
+        let needle = "abaababaabaababaabab";
+        assert_eq!(find("abaabaababaabaababaabab", needle), Some(3));
+        assert_eq!(find("abaababaabaababaabaa", needle), None);
+        assert_eq!(find("aaaaaaaaaaaaaaaaaaab", "aaaaaaaaaaaaaaaaab"), Some(2));
     }
 
     #[test]
